@@ -574,6 +574,7 @@ func cmdCheck(args []string) int {
 	keep := fs.Bool("keep", false, "keep the work directory")
 	noEvidence := fs.Bool("no-evidence", false, "do not write the evidence file")
 	workers := fs.Int("workers", 16, "worker processes")
+	sigF := fs.String("sig", "", "experiments: only minimise/report new signatures containing this substring")
 	paramF := fs.String("param", "", "extra harness parameters k=v[,k=v] (experiments; implies --no-evidence)")
 	repoF := fs.String("repo", "", "build from this tree instead of /repo (scratch worktrees for sensitivity experiments; implies --no-evidence and a separate work dir)")
 	fs.Parse(args[1:])
@@ -741,6 +742,9 @@ func cmdCheck(args []string) int {
 		if f, ok := knownSig[sig]; ok {
 			knownHit[sig] = len(bySig[sig])
 			fmt.Printf("KNOWN-FINDING: property=%s %s — %s (seen in %d of %d runs)\n", id, sig, f.What, len(bySig[sig]), len(recs))
+			continue
+		}
+		if *sigF != "" && !strings.Contains(sig, *sigF) {
 			continue
 		}
 		newSigs = append(newSigs, sig)
